@@ -149,7 +149,20 @@ void v_not_exhaustive(const char *why)
 uint64_t v_hash(const void *p, size_t n, uint64_t seed)
 {
 	const uint8_t *b = p;
-	uint64_t h = seed ^ 0xcbf29ce484222325ull ^ (n * 0x100000001b3ull);
+	uint64_t h0 = seed ^ 0xcbf29ce484222325ull ^ (n * 0x100000001b3ull), h1 = h0 ^ 0x9e3779b97f4a7c15ull, h2 = h0 + 0xc2b2ae3d27d4eb4full, h3 = ~h0;
+	while (n >= 32) { /* four independent lanes */
+		uint64_t w[4];
+		memcpy(w, b, 32);
+		h0 = (h0 ^ w[0]) * 0x9fb21c651e98df25ull; h0 ^= h0 >> 29;
+		h1 = (h1 ^ w[1]) * 0xff51afd7ed558ccdull; h1 ^= h1 >> 31;
+		h2 = (h2 ^ w[2]) * 0xc4ceb9fe1a85ec53ull; h2 ^= h2 >> 30;
+		h3 = (h3 ^ w[3]) * 0xd6e8feb86659fd93ull; h3 ^= h3 >> 28;
+		b += 32;
+		n -= 32;
+	}
+	uint64_t h = h0 ^ (h1 * 3) ^ (h2 * 5) ^ (h3 * 7);
+	h ^= h >> 33;
+	h *= 0x9fb21c651e98df25ull;
 	while (n >= 8) {
 		uint64_t w;
 		memcpy(&w, b, 8);
@@ -402,6 +415,7 @@ static void install_handlers(void)
 
 /* ---------- guard arena ---------- */
 #define PG 4096ul
+size_t g_canary_span = 4096; /* bytes of canary kept on either side of a buffer */
 #define BAND (1ul << 20)
 struct gslot {
 	uint8_t *base;   /* mapping start */
@@ -413,6 +427,7 @@ struct gslot {
 };
 #define GCLASSES 24
 static struct gslot *g_free[GCLASSES], *g_used;
+int g_strict_free; /* when set, recycled slots are inaccessible (PROT_NONE) until handed out again: stale pointers fault */
 static char g_damage[256];
 #define CANARY(i) ((uint8_t)((0xC5 ^ ((i) * 29)) | 1)) /* never zero: neighbours of a zero-detect region are non-zero */
 
@@ -436,9 +451,13 @@ static struct gslot *g_get(size_t size)
 		pages = 1;
 	int c = g_class(pages, &cp);
 	struct gslot *s = g_free[c];
-	if (s)
+	if (s) {
 		g_free[c] = s->next;
-	else {
+		if (s->prot_changed) {
+			mprotect(s->base + BAND, s->pages * PG, PROT_READ | PROT_WRITE);
+			s->prot_changed = 0;
+		}
+	} else {
 		s = calloc(1, sizeof *s);
 		s->pages = cp;
 		s->base = mmap(NULL, 2 * BAND + cp * PG, PROT_NONE, MAP_PRIVATE | MAP_ANONYMOUS | MAP_NORESERVE, -1, 0);
@@ -456,8 +475,8 @@ static void g_fill(struct gslot *s)
 {
 	uint8_t *d = s->base + BAND, *e = d + s->pages * PG;
 	/* canary outside [ptr, ptr+size) but only within 4 KiB on either side (cost bound) */
-	uint8_t *lo = s->ptr - d > (long)PG ? s->ptr - PG : d;
-	uint8_t *hi = e - (s->ptr + s->size) > (long)PG ? s->ptr + s->size + PG : e;
+	uint8_t *lo = s->ptr - d > (long)g_canary_span ? s->ptr - g_canary_span : d;
+	uint8_t *hi = e - (s->ptr + s->size) > (long)g_canary_span ? s->ptr + s->size + g_canary_span : e;
 	for (uint8_t *p = lo; p < s->ptr; p++)
 		*p = CANARY((uintptr_t)p);
 	for (uint8_t *p = s->ptr + s->size; p < hi; p++)
@@ -489,6 +508,17 @@ void *g_alloc_end_aligned(size_t size, size_t align)
 	g_fill(s);
 	return s->ptr;
 }
+/* persistent guarded allocation: never recycled by g_reset (contexts that live across transitions) */
+void *g_persist(size_t size, int placement)
+{
+	size_t pages = (size + PG - 1) / PG;
+	if (!pages)
+		pages = 1;
+	uint8_t *base = mmap(NULL, 2 * BAND + pages * PG, PROT_NONE, MAP_PRIVATE | MAP_ANONYMOUS | MAP_NORESERVE, -1, 0);
+	if (base == MAP_FAILED || mprotect(base + BAND, pages * PG, PROT_READ | PROT_WRITE))
+		v_broken("g_persist mmap failed");
+	return placement == G_END ? base + BAND + pages * PG - size : base + BAND;
+}
 int g_check(void)
 {
 	int bad = 0;
@@ -496,8 +526,8 @@ int g_check(void)
 		if (s->prot_changed)
 			continue;
 		uint8_t *d = s->base + BAND, *e = d + s->pages * PG;
-		uint8_t *lo = s->ptr - d > (long)PG ? s->ptr - PG : d;
-		uint8_t *hi = e - (s->ptr + s->size) > (long)PG ? s->ptr + s->size + PG : e;
+		uint8_t *lo = s->ptr - d > (long)g_canary_span ? s->ptr - g_canary_span : d;
+		uint8_t *hi = e - (s->ptr + s->size) > (long)g_canary_span ? s->ptr + s->size + g_canary_span : e;
 		for (uint8_t *p = lo; p < s->ptr; p++)
 			if (*p != CANARY((uintptr_t)p)) {
 				if (!bad)
@@ -519,7 +549,12 @@ void g_reset(void)
 	while (g_used) {
 		struct gslot *s = g_used;
 		g_used = s->next;
-		if (s->prot_changed || s->ro) {
+		if (g_strict_free) {
+			if (!s->prot_changed)
+				mprotect(s->base + BAND, s->pages * PG, PROT_NONE);
+			s->prot_changed = 1;
+			s->ro = 0;
+		} else if (s->prot_changed || s->ro) {
 			mprotect(s->base + BAND, s->pages * PG, PROT_READ | PROT_WRITE);
 			s->prot_changed = 0;
 			s->ro = 0;
